@@ -1105,6 +1105,23 @@ R.mutant("r4-subwrapper-other-key", LAM, sub("            bind_paths[bind_path_k
 R.mutant("r4-flag-raised-at-construction", LAM, sub("        self._has_param = False\n", "        self._has_param = True\n"), "C17-R4")
 R.mutant("r4-param-recreated-every-use", LAM, sub("        if param is None:\n            name = object.__getattribute__(self, \"_name\")\n            self._param = param",
                                                   "        if True:\n            name = object.__getattribute__(self, \"_name\")\n            self._param = param"), "C17-R4")
+# (str2-z2) seed C17_2 and its family: the descent into the recorded paths is skipped for a wrapper that has its own parameter
+_R4_LOOP = "        for pywrapper in object.__getattribute__(self, \"_bind_paths\").values():\n"
+R.mutant("r4-own-parameter-makes-wrapper-a-leaf", LAM,
+         sub("            result_list.append(param)\n" + _R4_LOOP, "            result_list.append(param)\n            return\n" + _R4_LOOP), "C17-R4")
+R.mutant("r4-paths-only-without-own-parameter", LAM,
+         sub("            result_list.append(param)\n" + _R4_LOOP, "            result_list.append(param)\n        if param is not None:\n            return\n" + _R4_LOOP), "C17-R4")
+R.mutant("r4-paths-skipped-when-flag-set", LAM,
+         sub(_R4_LOOP, "        if object.__getattribute__(self, \"_has_param\"):\n            return\n" + _R4_LOOP), "C17-R4")
+R.mutant("benign-r4-no-paths-early-return", LAM,
+         sub(_R4_LOOP, "        recorded = object.__getattribute__(self, \"_bind_paths\")\n        if not recorded:\n            return\n        for pywrapper in recorded.values():\n"), None)
+R.mutant("benign-r4-own-parameter-inverted-branch", LAM,
+         sub("        if param is not None:\n            param = param._with_value(starting_point, maintain_key=True)\n            result_list.append(param)\n",
+             "        if param is None:\n            pass\n        else:\n            result_list.append(\n                param._with_value(starting_point, maintain_key=True)\n            )\n"), None)
+R.mutant("benign-r4-paths-guarded-by-non-empty", LAM,
+         chain(sub(_R4_LOOP, "        if object.__getattribute__(self, \"_bind_paths\"):\n          for pywrapper in object.__getattribute__(self, \"_bind_paths\").values():\n"),
+               sub("            getter = object.__getattribute__(pywrapper, \"_getter\")\n            element = getter(starting_point)\n            pywrapper._sa__extract_bound_parameters(element, result_list)",
+                   "            getter = object.__getattribute__(pywrapper, \"_getter\")\n            element = getter(starting_point)\n            pywrapper._sa__extract_bound_parameters(\n                element, result_list\n            )")), None)
 R.mutant("benign-r4-spelling", LAM,
          chain(sub("        param = object.__getattribute__(self, \"_param\")\n        if param is not None:\n            param = param._with_value(starting_point, maintain_key=True)\n            result_list.append(param)",
                    "        own = self._sa__param\n        if own is not None:\n            result_list.append(own._with_value(starting_point, maintain_key=True))"),
@@ -1131,6 +1148,44 @@ def _falsy_edges(S: Sub, attr: str) -> Set[Tuple[int, str]]:
                 if not pol and any(_top_attr(a) == attr for a in S.alts(t, n.id)):
                     out.add((n.id, lab))
     return out
+
+
+def _chain_reach(ctx, receivers) -> Optional[str]:
+    """How far up the parent chain the objects a key component is read off reach: None (no parent), "first" (only
+    `self.parent_lambda`), "chain" (the immediate parent and a loop carried walker `p = p.parent_lambda`, or the elements
+    of a helper of the class that walks `parent_lambda` in a loop), "skips" (a walker that does not start at the
+    immediate parent)."""
+    first = walker = False
+    for r in receivers:
+        if r is None:
+            continue
+        if is_pseudo(r, ELEM) and r.args and isinstance(r.args[0], ast.Call) and _self_call(r.args[0]):
+            m = ctx.index.cls(LE).methods.get(_self_call(r.args[0]))
+            if m is not None and any(isinstance(l_, (ast.While, ast.For)) and has_attr(l_, "parent_lambda") for l_ in ast.walk(m.node)):
+                first = walker = True
+            continue
+        if not has_attr(r, "parent_lambda"):
+            continue
+        if _has_cyc(r):
+            walker = True
+        elif _attr_is(r, "parent_lambda", "self"):
+            first = True
+    if first and walker:
+        return "chain"
+    if walker:
+        return "skips"
+    return "first" if first else None
+
+
+def _published_parent_prefix(ctx) -> bool:
+    """_retrieve_tracker_rec publishes self.closure_cache_key = <parent's published key> + <own closure key> (so the
+    published key of a linked element carries the closure keys of the whole chain)"""
+    rt = _rt(ctx)
+    g, S = rt.g, rt.S
+    pn = [i for t, n, st in attr_stores(rt.f.node) if t == "self.closure_cache_key" for i in g.nodes_for(st)]
+    finals = [i for i in pn if not (g.reachable(normal_succ(g, i), edge_ok=no_exc) & set(pn))]
+    vals = [a for i in finals for a in S.alts(g.nodes[i].stmt.value, i) if not _is_nocache(a)]
+    return bool(vals) and any(_key_parts(rt, a)[2] for a in vals) and all(rt.has_key_anchor(a) for a in vals)
 
 
 @R.rule("C17-R5", floor=7, template="T-FLOW/T-PATH",
@@ -1252,13 +1307,12 @@ def r5(ctx):
         # (`p = p.parent_lambda`) or when the parent is asked for its own key (recursion).  The closure keys of the chain
         # may instead arrive inside self.closure_cache_key: _retrieve_tracker_rec publishes parent key + own key (C17-R2
         # judges that composition), which is transitive by construction; code objects have no such second route.
-        deleg = _chain_reach(n_ for a in alts for n_ in ast.walk(a) if isinstance(n_, ast.Call) and isinstance(n_.func, ast.Attribute)
-                             and n_.func.attr in ("_gen_cache_key", "_generate_cache_key") for n_ in [n_.func.value])
-        ck = _chain_reach(getattr_norm(n)[0] for a in alts for n in ast.walk(a)
-                          if _attr_is(n, "closure_cache_key") and not _attr_is(n, "closure_cache_key", "self"))
-        cd = _chain_reach(getattr_norm(getattr_norm(n)[0])[0] for a in alts for n in ast.walk(a)
-                          if _attr_is(n, "__code__") and getattr_norm(getattr_norm(n)[0]) is not None and _attr_is(getattr_norm(n)[0], "fn")
-                          and not _attr_is(getattr_norm(n)[0], "fn", "self"))
+        deleg = _chain_reach(ctx, [n.func.value for a in alts for n in ast.walk(a) if isinstance(n, ast.Call)
+                                   and isinstance(n.func, ast.Attribute) and n.func.attr in ("_gen_cache_key", "_generate_cache_key")])
+        ck = _chain_reach(ctx, [getattr_norm(n)[0] for a in alts for n in ast.walk(a)
+                                if _attr_is(n, "closure_cache_key") and not _attr_is(n, "closure_cache_key", "self")])
+        cd = _chain_reach(ctx, [getattr_norm(getattr_norm(n)[0])[0] for a in alts for n in ast.walk(a)
+                                if _attr_is(n, "__code__") and _attr_is(getattr_norm(n)[0], "fn") and not _attr_is(getattr_norm(n)[0], "fn", "self")])
         published = _published_parent_prefix(ctx)
         if not own_ok:
             bad.append("the key lacks the element's closure cache key (structure-changing closure values)")
@@ -1285,11 +1339,15 @@ def r5(ctx):
             if not any(_attr_is(x, "__code__") and not _attr_is(getattr_norm(x)[0], "fn", "self") for x in ast.walk(n.stmt.value)):
                 continue
             for t, pol in S4.guards(n.id):
-                ta = S4.alts(t, S4.node_of(t)) if S4.node_of(t) is not None else [t]
-                exist = isinstance(t, ast.Compare) and len(t.ops) == 1 and isinstance(t.ops[0], (ast.Is, ast.IsNot)) \
-                    and isinstance(t.comparators[0], ast.Constant) and t.comparators[0].value is None \
-                    and pol == isinstance(t.ops[0], ast.IsNot)
-                exist = exist or (pol and not isinstance(t, ast.Compare) and all(has_attr(a, "parent_lambda") or _has_cyc(a) for a in ta))
+                if isinstance(t, ast.Constant):
+                    continue
+                subj = t.left if isinstance(t, ast.Compare) else t
+                sa = S4.alts(subj, S4.node_of(subj)) if S4.node_of(subj) is not None else [subj]
+                sa = [a for a in sa if not isinstance(a, ast.Constant)] or sa
+                is_link = all(_top_attr(a) == "parent_lambda" or (isinstance(a, ast.Name) and a.id.startswith(CYC)) for a in sa)
+                exist = is_link and (pol if not isinstance(t, ast.Compare) else (
+                    len(t.ops) == 1 and isinstance(t.ops[0], (ast.Is, ast.IsNot)) and isinstance(t.comparators[0], ast.Constant)
+                    and t.comparators[0].value is None and pol == isinstance(t.ops[0], ast.IsNot)))
                 nocache = _nocache_atom(t) is not None
                 if not (exist or nocache):
                     bad.append(f"an ancestor's contribution to the key is conditional on `{unparse(orig(t))[:60]}`")
@@ -1347,8 +1405,37 @@ R.mutant("r5-resolve-with-args-unspliced", LAM,
 R.mutant("r5-cache-key-without-closure-key", LAM,
          sub("        cache_key = (\n            self.fn.__code__,\n            self.__class__,\n        ) + self.closure_cache_key\n",
              "        cache_key = (\n            self.fn.__code__,\n            self.__class__,\n        )\n"), "C17-R5")
-R.mutant("r5-parent-closure-key-dropped", LAM,
-         sub("                (parent.fn.__code__,) + parent_closure_cache_key + cache_key\n", "                (parent.fn.__code__,) + cache_key\n"), "C17-R5")
+# (str2-z2) was a breaking mutant of R5; it is behaviour preserving: self.closure_cache_key of a linked element is published by
+# _retrieve_tracker_rec as <parent's published key> + <own key>, so the closure keys of the whole chain are in the key already
+R.mutant("benign-r5-parent-closure-key-only-through-published-key", LAM,
+         sub("                (parent.fn.__code__,) + parent_closure_cache_key + cache_key\n", "                (parent.fn.__code__,) + cache_key\n"), None)
+R.mutant("r5-parent-closure-keys-on-no-route", LAM,
+         chain(sub("                (parent.fn.__code__,) + parent_closure_cache_key + cache_key\n", "                (parent.fn.__code__,) + cache_key\n"),
+               sub("                cache_key = parent_closure_cache_key + cache_key\n", "                cache_key = cache_key + ()\n")), "C17-R5")
+# seed C17_1 and its family: not every lambda of the chain is named by the compiled-cache key
+_R5_WALK = "        while parent is not None:\n            assert parent.closure_cache_key is not CacheConst.NO_CACHE\n"
+R.mutant("r5-only-immediate-parent-code", LAM,
+         chain(sub(_R5_WALK, "        if parent is not None:\n            assert parent.closure_cache_key is not CacheConst.NO_CACHE\n"),
+               sub("                (parent.fn.__code__,) + parent_closure_cache_key + cache_key\n            )\n\n            parent = parent.parent_lambda\n",
+                   "                (parent.fn.__code__,) + parent_closure_cache_key + cache_key\n            )\n")), "C17-R5")
+R.mutant("r5-walk-left-after-first-parent", LAM,
+         sub("            parent = parent.parent_lambda\n\n        if self._resolved_bindparams:\n            bindparams.extend",
+             "            break\n\n        if self._resolved_bindparams:\n            bindparams.extend"), "C17-R5")
+R.mutant("r5-walk-starts-above-immediate-parent", LAM,
+         sub("        parent = self.parent_lambda\n\n        while parent is not None:\n",
+             "        parent = (\n            self.parent_lambda.parent_lambda\n            if self.parent_lambda is not None\n            else None\n        )\n\n        while parent is not None:\n"), "C17-R5")
+R.mutant("r5-ancestor-code-only-with-own-parameters", LAM,
+         sub("            cache_key = (\n                (parent.fn.__code__,) + parent_closure_cache_key + cache_key\n            )\n",
+             "            if parent._resolved_bindparams:\n                cache_key = (\n                    (parent.fn.__code__,) + parent_closure_cache_key + cache_key\n                )\n            else:\n                cache_key = parent_closure_cache_key + cache_key\n"), "C17-R5")
+R.mutant("benign-r5-walk-as-while-true", LAM,
+         sub(_R5_WALK, "        while True:\n            if parent is None:\n                break\n            assert parent.closure_cache_key is not CacheConst.NO_CACHE\n"), None)
+R.mutant("benign-r5-walk-through-generator-helper", LAM,
+         chain(sub("        parent = self.parent_lambda\n\n" + _R5_WALK, "        for parent in self._lambdas_above():\n            assert parent.closure_cache_key is not CacheConst.NO_CACHE\n"),
+               sub("                (parent.fn.__code__,) + parent_closure_cache_key + cache_key\n            )\n\n            parent = parent.parent_lambda\n",
+                   "                (parent.fn.__code__,) + parent_closure_cache_key + cache_key\n            )\n"),
+               sub("    def _invoke_user_fn(self, fn: _AnyLambdaType, *arg: Any) -> ClauseElement:\n        return fn()  # type: ignore[no-any-return]\n",
+                   "    def _lambdas_above(self):\n        above = self.parent_lambda\n        while above is not None:\n            yield above\n            above = above.parent_lambda\n\n"
+                   "    def _invoke_user_fn(self, fn: _AnyLambdaType, *arg: Any) -> ClauseElement:\n        return fn()  # type: ignore[no-any-return]\n")), None)
 R.mutant("r5-parameters-not-extracted", LAM,
          sub("        if self._resolved_bindparams:\n            bindparams.extend(self._resolved_bindparams)\n        return cache_key", "        return cache_key"), "C17-R5")
 R.mutant("r5-no-cache-not-marked", LAM,
@@ -1361,6 +1448,116 @@ R.mutant("benign-r5-restructured", LAM,
                sub("                if element.key in bindparam_lookup:\n                    bind = bindparam_lookup[element.key]", "                if element.key in current:\n                    bind = current[element.key]"),
                sub("        if self._resolved_bindparams:\n            bindparams.extend(self._resolved_bindparams)\n        return cache_key",
                    "        mine = self._resolved_bindparams\n        if mine:\n            bindparams.extend(mine)\n        return cache_key")), None)
+
+
+# ---------------------------------------------------------------------- C17-R7 (str2-z2): positional pairing of two cache keys
+# CacheKey._apply_params_to_element(original_key, element) -> _OverrideBinds pairs the parameters of the two keys BY POSITION.
+# That is only meaningful when both keys were produced by the same traversal.  The key of a LambdaElement is not produced by
+# traversing its statement: _gen_cache_key extends the list with self._resolved_bindparams, i.e. the tracked closure
+# parameters only, in tracker order (closure cells in co_freevars order = alphabetical, then recorded paths), whereas the
+# key of the resolved statement lists every parameter in statement order.  A site that pairs "the key of the statement as
+# it was executed" (QueryContext.query / .user_passed_query: may be a lambda statement) with "the key of the compiled
+# statement" (compile_state.select_statement: always resolved) must therefore treat the lambda case separately.
+CTXF = "orm/context.py"
+
+
+def _as_passed_attrs(ctx) -> Set[str]:
+    """attributes of QueryContext that hold the statement as it was handed to execute (never resolved): the constructor
+    parameters that receive the caller's own `statement` at the QueryContext(...) construction sites"""
+    init = ctx.func(f"{CTXF}::QueryContext.__init__")
+    params = list(init.params)
+    mod = ctx.index.module(CTXF)
+    pos: Set[str] = set()
+    for fi in ctx.index.all_functions(mod):
+        for c in calls_in(fi.node):
+            if (dotted(c.func) or "").split(".")[-1] != "QueryContext":
+                continue
+            b = bind_args(c, init.node) if callable(bind_args) else None
+            if not isinstance(b, dict):
+                continue
+            for pn, v in b.items():
+                if isinstance(v, ast.Name) and v.id in fi.params and v.id == "statement":
+                    pos.add(pn)
+    out: Set[str] = set()
+    for t, n, st in attr_stores(init.node):
+        if t.startswith("self.") and isinstance(getattr(st, "value", None), ast.Name) and st.value.id in pos:
+            out.add(t.split(".", 1)[1])
+    return out
+
+
+@R.rule("C17-R7", floor=2, template="T-SIBLING",
+        desc="every site that pairs the parameters of two cache keys by position (CacheKey._apply_params_to_element) takes both "
+             "keys from statements of the same kind: the key of the statement as executed (may be a lambda statement: closure "
+             "parameters only, tracker order) is not zipped with the key of the resolved, compiled statement (all parameters, "
+             "statement order) unless the lambda case is split off")
+def r7(ctx):
+    as_passed = _as_passed_attrs(ctx)
+    ctx.require(as_passed, f"{CTXF}::QueryContext.__init__: no attribute holds the statement as passed to execute")
+    sites = []
+    for m in list(ctx.index.modules.values()):
+        if "_apply_params_to_element(" not in m.source:
+            continue
+        mod = ctx.index.module(m.relpath)
+        for fi in ctx.index.all_functions(mod):
+            for c in calls_in(fi.node):
+                if isinstance(c.func, ast.Attribute) and c.func.attr == "_apply_params_to_element" and c.args:
+                    sites.append((fi, c))
+    ctx.require(len(sites) >= 2, f"expected at least two sites that re-apply parameters to cached loader criteria, found {len(sites)}")
+    for fi, c in sites:
+        S = _S(ctx, fi)
+        # the call may sit in a nested def: find it, and resolve its free variables in the enclosing function
+        inner = None
+        for d in nested_defs(fi.node):
+            if any(x is c for x in ast.walk(d)):
+                inner = d
+        SI = _S(ctx, inner) if inner is not None else S
+
+        def resolve(e):
+            out = []
+            for a in (SI.ctx_alts(e) if SI.node_of(e) is not None else [e]):
+                out.extend(S.free(a, inner) if inner is not None else [a])
+            return out
+
+        def stmts(e):
+            res = []
+            for a in resolve(e):
+                if isinstance(a, ast.Call) and isinstance(a.func, ast.Attribute) and a.func.attr == "_generate_cache_key":
+                    res.append(a.func.value)
+                else:
+                    res.append(None)
+            return res
+
+        cur, org = stmts(c.func.value), stmts(c.args[0])
+        ctx.require(cur and org and all(x is not None for x in cur + org),
+                    f"{fi.key}: the keys paired by `{unparse(c)[:60]}` are not `<statement>._generate_cache_key()`")
+        cur_attr = {_top_attr(x) for x in cur}
+        org_attr = {_top_attr(x) for x in org}
+        mixed = bool(cur_attr & as_passed) and not (org_attr & as_passed)
+        split = False
+        at = SI.node_of(c)
+        for t, pol in (SI.guards(at) if at is not None else []):
+            for a in resolve(t) if SI.node_of(t) is not None else [t]:
+                if has_attr(a, "_is_lambda_element"):
+                    split = True
+        if inner is None and not split:
+            pass
+        ctx.check(not mixed or split, f"{fi.key}:cache-key-parameters-paired-by-position:same-kind-of-key",
+                  f"`{unparse(c)[:70]}` zips the parameters of `{'/'.join(sorted(unparse(x)[:40] for x in cur))}` (the statement as executed: for a lambda "
+                  f"statement its key lists the tracked closure parameters only, in closure-variable order) with those of "
+                  f"`{'/'.join(sorted(unparse(x)[:40] for x in org))}` (the resolved statement: every parameter, statement order) and never asks "
+                  "`_is_lambda_element` -- lambda_stmt(lambda: select(Order).options(selectinload(Order.lines.and_(Line.status == st, Line.qty >= mq)))): "
+                  "from the second invocation on `st` is compared with mq's value and vice versa; with one closure value after a literal "
+                  "written inside the lambda the closure value is not applied at all",
+                  f"{'as-executed' if cur_attr & as_passed else 'other'} vs {'as-executed' if org_attr & as_passed else 'resolved'}"
+                  + (", lambda case split off" if split else ""), loc(fi, c))
+
+
+_R7_A = ("        k1 = orig_query._generate_cache_key()\n        k2 = current_query._generate_cache_key()\n\n        return k2._apply_params_to_element(k1, and_(*self._extra_criteria))\n")
+SOPT = "orm/strategy_options.py"
+R.mutant("benign-r7-lambda-case-split-off", SOPT,
+         chain(sub(_R7_A, "        if current_query._is_lambda_element:\n            lk = current_query._generate_cache_key()\n            return sql_elements_override(lk, and_(*self._extra_criteria))\n" + _R7_A),
+               sub("        orig_cache_key = orig_query._generate_cache_key()\n        assert orig_cache_key is not None\n",
+                   "        orig_cache_key = orig_query._generate_cache_key()\n        assert orig_cache_key is not None\n        if context.user_passed_query._is_lambda_element:\n            return self\n")), None)
 
 
 # ---------------------------------------------------------------------- C17-R6: classification is exhaustive
